@@ -19,7 +19,14 @@ import (
 // max-body and chunked values reach the attacker unchanged.
 //
 //verif:harness unwind=64 replay=none with=lib
-func verif_harness_C18_command_connect_to() {
+func verif_harness_C18_command_connect_to() { verifCommandWiring() }
+
+// The same harness registered for C19 (command-line values reach the attacker).
+//
+//verif:harness unwind=64 replay=none with=lib
+func verif_harness_C19_command_values() { verifCommandWiring() }
+
+func verifCommandWiring() {
 	if !verif_is_symbolic_run() {
 		return
 	}
@@ -47,10 +54,11 @@ func verif_harness_C18_command_connect_to() {
 		return ch
 	})
 	ttl := []time.Duration{0, -1}[verif_choose("dns_ttl", 2)]
+	workers, maxWorkers, maxBody, chunked := verif_nondet_u64("workers"), verif_nondet_u64("max_workers"), verif_nondet_i64("max_body"), verif_nondet_bool("chunked")
 	opts := &attackOpts{
 		targetsf: "targets", format: vegeta.HTTPTargetFormat, outputf: "stdout",
 		rate: vegeta.Rate{Freq: 50, Per: time.Second}, duration: time.Second, timeout: time.Second,
-		workers: 3, maxWorkers: 7, connections: 100, redirects: 10, maxBody: 12, chunked: true, keepalive: true,
+		workers: workers, maxWorkers: maxWorkers, connections: 100, redirects: 10, maxBody: maxBody, chunked: chunked, keepalive: true,
 		laddr:     localAddr{&net.IPAddr{IP: net.IP{0, 0, 0, 0}}},
 		dnsTTL:    ttl,
 		connectTo: map[string][]string{"mapped.example:80": {"10.1.1.1:8080"}},
@@ -61,7 +69,7 @@ func verif_harness_C18_command_connect_to() {
 		return
 	}
 	w, mw, mb, ch := vegeta.VerifAttackerLimits(built)
-	verif_assert(w == 3 && mw == 7 && mb == 12 && ch, "C19.command.values-reach-the-attacker")
+	verif_assert(w == workers && mw == maxWorkers && mb == maxBody && ch == chunked, "C19.command.values-reach-the-attacker")
 	lookups, dialled := vegeta.VerifC18DialThrough(built, "mapped.example:80")
 	verif_assert(len(dialled) >= 1, "C18.command.a-connection-is-dialled")
 	for _, d := range dialled {
